@@ -110,7 +110,11 @@ class StrAbs:
             sts = mi.globals_assigned.get(name)
             if not sts:
                 raise AnalysisError(f"formatting.{name} not found")
-        self.superscripts = eval_superscripts(mi.globals_assigned["SUPERSCRIPTS"][0].value)  # type: ignore[union-attr]
+        tabs = eval_module_tables(mi.tree)
+        if not isinstance(tabs.get("SUPERSCRIPTS"), dict) or not tabs["SUPERSCRIPTS"]:
+            raise AnalysisError("formatting.SUPERSCRIPTS is not built from constants this analysis can evaluate")
+        self.superscripts = {str(k): str(v) for k, v in tabs["SUPERSCRIPTS"].items()}
+        self.digits = {str(k): str(v) for k, v in tabs["DIGITS"].items()} if isinstance(tabs.get("DIGITS"), dict) else None
 
     # ------------------------------------------------------------ functions
     def function(self, qual: str, arg_types: Optional[Dict[str, str]] = None) -> Lang:
@@ -457,6 +461,83 @@ class StrAbs:
 
 class NotString(Exception):
     pass
+
+
+def eval_module_tables(tree: ast.Module) -> Dict[str, Any]:
+    """Constant evaluation of the module-level statements that build the character tables: string constants, dict displays
+    (with the `{str(i): v for i, v in enumerate([...])}` spread), `dict(zip(a, b))`, `{v: k for k, v in X.items()}`,
+    `X.update(zip(a, b))` / `X.update({...})` and `X[k] = v`, in source order.  Anything else leaves the name unknown."""
+    env: Dict[str, Any] = {}
+
+    def ev(e: ast.AST) -> Any:
+        if isinstance(e, ast.Constant):
+            return e.value
+        if isinstance(e, ast.Name) and e.id in env:
+            return env[e.id]
+        if isinstance(e, (ast.List, ast.Tuple)):
+            return [ev(x) for x in e.elts]
+        if isinstance(e, ast.Dict):
+            try:
+                return eval_superscripts(e)
+            except AnalysisError:
+                out: Dict[Any, Any] = {}
+                for k, v in zip(e.keys, e.values):
+                    if k is None:
+                        out.update(ev(v))
+                    else:
+                        out[ev(k)] = ev(v)
+                return out
+        if isinstance(e, ast.DictComp) and len(e.generators) == 1 and not e.generators[0].ifs:
+            g = e.generators[0]
+            it = g.iter
+            if isinstance(it, ast.Call) and isinstance(it.func, ast.Attribute) and it.func.attr == "items" and isinstance(g.target, ast.Tuple) \
+                    and len(g.target.elts) == 2 and all(isinstance(x, ast.Name) for x in g.target.elts):
+                src = ev(it.func.value)
+                kn, vn = (x.id for x in g.target.elts)  # type: ignore[union-attr]
+                res = {}
+                for k, v in src.items():
+                    loc = {kn: k, vn: v}
+                    kk = loc[e.key.id] if isinstance(e.key, ast.Name) and e.key.id in loc else None
+                    vv = loc[e.value.id] if isinstance(e.value, ast.Name) and e.value.id in loc else None
+                    if kk is None or vv is None:
+                        raise KeyError("dict comprehension")
+                    res[kk] = vv
+                return res
+            if isinstance(it, ast.Call) and ast.unparse(it.func) == "enumerate" and ast.unparse(e.key) == "str(i)" and isinstance(e.value, ast.Name):
+                return {str(i): x for i, x in enumerate(ev(it.args[0]))}
+        if isinstance(e, ast.Call) and isinstance(e.func, ast.Name) and e.func.id == "zip" and len(e.args) == 2:
+            return list(zip(ev(e.args[0]), ev(e.args[1])))
+        if isinstance(e, ast.Call) and isinstance(e.func, ast.Name) and e.func.id == "dict" and len(e.args) <= 1:
+            d = dict(ev(e.args[0])) if e.args else {}
+            d.update({k.arg: ev(k.value) for k in e.keywords if k.arg})
+            return d
+        if isinstance(e, ast.Call) and isinstance(e.func, ast.Name) and e.func.id in ("list", "tuple", "str") and len(e.args) == 1:
+            v = ev(e.args[0])
+            return list(v) if e.func.id != "str" else str(v)
+        if isinstance(e, ast.Call) and isinstance(e.func, ast.Attribute) and e.func.attr in ("keys", "values", "items") and not e.args:
+            d = ev(e.func.value)
+            return list(getattr(d, e.func.attr)())
+        raise KeyError(ast.unparse(e)[:40])
+    for st in tree.body:
+        try:
+            if isinstance(st, (ast.Assign, ast.AnnAssign)) and getattr(st, "value", None) is not None:
+                tg = st.targets[0] if isinstance(st, ast.Assign) else st.target
+                if isinstance(tg, ast.Name):
+                    try:
+                        env[tg.id] = ev(st.value)  # type: ignore[arg-type]
+                    except (KeyError, TypeError, AttributeError, AnalysisError):
+                        env.pop(tg.id, None)
+                elif isinstance(tg, ast.Subscript) and isinstance(tg.value, ast.Name) and isinstance(env.get(tg.value.id), dict):
+                    env[tg.value.id][ev(tg.slice)] = ev(st.value)  # type: ignore[arg-type]
+            elif isinstance(st, ast.Expr) and isinstance(st.value, ast.Call) and isinstance(st.value.func, ast.Attribute) \
+                    and st.value.func.attr == "update" and isinstance(st.value.func.value, ast.Name) and isinstance(env.get(st.value.func.value.id), dict) \
+                    and len(st.value.args) == 1:
+                env[st.value.func.value.id].update(dict(ev(st.value.args[0])))
+        except (KeyError, TypeError, AttributeError):
+            nm = st.value.func.value.id if isinstance(st, ast.Expr) else None  # type: ignore[union-attr]
+            if nm:
+                env.pop(nm, None)
+    return env
 
 
 def eval_superscripts(node: ast.AST) -> Dict[str, str]:
